@@ -56,6 +56,10 @@ where
         debug_assert_eq!(bytes.len(), index_header.data_section_size as usize);
 
         let store = Vec::from(bytes);
+        // Every entry gets its own copy of the bytes it refers to. In a valid header the entries
+        // never share bytes, so together they cannot refer to more than the data section holds:
+        // without this limit a small index could claim one large data section over and over.
+        let mut claimed: usize = 0;
         // add data to entries
         for entry in &mut entries {
             let mut remaining = usize::try_from(entry.offset)
@@ -68,29 +72,34 @@ where
                     ))
                 })?;
 
+            let available = remaining.len();
             match &mut entry.data {
                 IndexData::Null => {}
                 IndexData::Char(chars) => {
                     parse_binary_entry(remaining, entry.num_items, chars, "Char")?;
+                    remaining = &remaining[chars.len()..];
                 }
                 IndexData::Int8(ints) => {
                     parse_binary_entry(remaining, entry.num_items, ints, "Int8")?;
+                    remaining = &remaining[ints.len()..];
                 }
                 IndexData::Int16(ints) => {
-                    parse_entry_data_number(remaining, entry.num_items, ints, be_u16)?;
+                    remaining = parse_entry_data_number(remaining, entry.num_items, ints, be_u16)?.0;
                 }
                 IndexData::Int32(ints) => {
-                    parse_entry_data_number(remaining, entry.num_items, ints, be_u32)?;
+                    remaining = parse_entry_data_number(remaining, entry.num_items, ints, be_u32)?.0;
                 }
                 IndexData::Int64(ints) => {
-                    parse_entry_data_number(remaining, entry.num_items, ints, be_u64)?;
+                    remaining = parse_entry_data_number(remaining, entry.num_items, ints, be_u64)?.0;
                 }
                 IndexData::StringTag(string) => {
-                    let (_rest, raw_string) = complete::take_till(|item| item == 0)(remaining)?;
+                    let (rest, raw_string) = complete::take_till(|item| item == 0)(remaining)?;
                     string.push_str(String::from_utf8_lossy(raw_string).as_ref());
+                    remaining = rest;
                 }
                 IndexData::Bin(bin) => {
                     parse_binary_entry(remaining, entry.num_items, bin, "Bin")?;
+                    remaining = &remaining[bin.len()..];
                 }
                 IndexData::StringArray(strings) | IndexData::I18NString(strings) => {
                     for _ in 0..entry.num_items {
@@ -103,6 +112,13 @@ where
                         strings.push(string);
                     }
                 }
+            }
+            claimed = claimed.saturating_add(available - remaining.len());
+            if claimed > store.len() {
+                return Err(Error::Nom(format!(
+                    "The index entries refer to more data than the {} bytes of the data section, entries overlap",
+                    store.len()
+                )));
             }
         }
 
